@@ -1997,6 +1997,20 @@ class Interp:
             for k, v in res.items():
                 if k not in env and k not in post:
                     post[k] = _forget_iv(v, iv) if iv else v
+            # the loop's own target names keep the last item after the loop (or what they held before, when no round ran)
+            if is_for:
+                for t_ in ast.walk(st.target):
+                    if isinstance(t_, ast.Name) and t_.id in env and t_.id in res and t_.id not in post and t_.id not in carried:
+                        last_ = None
+                        if iv and sp is not None and isinstance(res[t_.id], Sc) and res[t_.id].e is not None:
+                            e_last = sym.subst_ivar_expr(res[t_.id].e, iv, sym.sub(sp.size, sym.ONE))   # the item of the last round
+                            if e_last is not None:
+                                last_ = Sc(e_last)
+                        if last_ is None:
+                            last_ = _forget_iv(res[t_.id], iv) if iv else res[t_.id]
+                        ran = sym.Cmp(">=", sp.size, sym.ONE) if sp is not None else sym.Opq("config", (), "loop-ran")
+                        d_ = self.decide(ran)
+                        post[t_.id] = last_ if d_ is True else (env[t_.id] if d_ is False else self.join_cond(ran, last_, env[t_.id]))
             if stable or rounds == 3:
                 break
             for n, v in post.items():
